@@ -5,6 +5,8 @@ R-C20-1 (DRV): on every mode path of setup()+solve() and of the statistics acces
          tolerance is unwrapped, every vector/operator used is allocated/initialised by setup() in that mode.
 R-C20-4 (DRV): on every such path the statistics accessors equal their defining terms (iteration count, reduction factor
          as (last/first residual norm)^(1/k), error figures of the iterate the last stop test examined).
+R-C20-5 (TAB): the meaning of those error figures: computeExactError interpreted as an exact table (error = exact - solution
+         at the node's own coordinates, every node once, weighted l2 and max norm of that vector).
 R-C20-2 (STRUCT): option tables — for every enum-typed option the parser's validity test admits exactly the
          enumerators, every library switch on it names every enumerator or has a throwing default, every
          static_cast to the enum is dominated by the test.
@@ -31,6 +33,67 @@ def modes(tier):
         for L, cyc, nu in (((2, 0, (1, 1)),) if tier == "quick" else ((2, 0, (1, 1)), (3, 1, (0, 0)), (3, 2, (1, 0)))):
             yield {"L": L, "FMG": fmg, "FMG_iterations": 1, "FMG_cycle": cyc, "extrapolation": ext, "cycle": cyc, "nu1": nu[0], "nu2": nu[1],
                    "max_iterations": mi, "abs_tol": a, "rel_tol": r, "exact": ex, "norm": 0, "verbose": vb, "paraview": pv}
+
+
+def exact_error_table(ck, tier):
+    """R-C20-5: the meaning of the error symbols of R-C20-4 - computeExactError interpreted as an exact table"""
+    from gmg import dag, opsdom, symdom, tab_ops
+    from gmg.conc import strip_targs
+    from gmg.interp import Cell
+    from gmg.symdom import PairObj, SArr
+    ck.rule("R-C20-5", "computeExactError: error[node] = exact(r_i, theta_j, sin, cos) - solution[node] at every node, each written once, in range; returns (sqrt(l2_norm_squared(error))/sqrt(N), infinity_norm(error))", floor=3)
+    oprog = tab_ops.load()
+    fn = oprog.fn("GMGPolar::computeExactError")
+    ck.analysed(fn)
+
+    class ErrDomain(opsdom.OpsDomain):
+        def call(self, e, fr):
+            base = strip_targs(e.get("callee") or "")
+            if base in ("l2_norm_squared", "infinity_norm", "l1_norm", "dot_product") and len(e["args"]) == 1:
+                a = self.interp.rvalue(e["args"][0], fr)
+                return dag.func(base, dag.atom("vector:%s" % a.name.split("#")[0]))
+            if base == "std::make_pair" and len(e["args"]) == 2:
+                a, b = self.interp.rvalue(e["args"][0], fr), self.interp.rvalue(e["args"][1], fr)
+                return PairObj(first=Cell(a), second=Cell(b))
+            return opsdom.OpsDomain.call(self, e, fr)
+    shapes = [(6, 8, 2, False), (5, 4, 0, True), (7, 12, 7, False)] if tier == "quick" else [(6, 8, 2, False), (5, 4, 0, True), (7, 12, 7, False), (5, 4, 5, True), (9, 8, 3, True), (2, 4, 2, False)]
+    for (nr, nt, nsc, dirbc) in shapes:
+        S = tab_ops.Setting(oprog, nr, nt, nsc, dirbc)
+        S.dom.__class__ = ErrDomain
+        sk = S.key()
+        ck.instance("R-C20-5", sk)
+        lvl = symdom.make_level(0, S.grid, S.cache(True, True))
+        gm = tab_ops.make_gmgpolar(S, [lvl])
+        N = S.N
+        sol = SArr("solution", N, gen=lambda j: dag.atom("u_%d" % j))
+        err = SArr("error", N)
+        r = S.it.call_function(fn, gm, [Cell(lvl), Cell(sol), Cell(err)])
+        probs = []
+        if S.dom.oob:
+            probs.append("out-of-range access %s[%s] (length %s) at %s" % tuple(S.dom.oob[0]))
+        rr, aa = S.grid.f["radii_"].get(), S.grid.f["angles_"].get()
+        for i in range(N):
+            ri, ti = S.rt(i)
+            want = dag.sub(dag.func("exact.exact_solution", rr.gen(ri), aa.gen(ti), dag.func("sin", aa.gen(ti)), dag.func("cos", aa.gen(ti))), dag.atom("u_%d" % i))
+            got = err.sym.get(i)
+            if got is None or not dag.equal(dag.lift(got), want):
+                probs.append("error at node %s is %s, expected exact(r_%d, theta_%d) - solution there" % (S.rt(i), dag.show(dag.lift(got), 80) if got is not None else "never written", ri, ti))
+                break
+        if sorted(err.writes) != list(range(N)):
+            probs.append("%d writes for %d nodes (every node exactly once)" % (len(err.writes), N))
+        if not isinstance(r, dict) or "first" not in r:
+            probs.append("does not return a pair")
+        else:
+            first, second = dag.lift(r["first"].get()), dag.lift(r["second"].get())
+            w1 = dag.div(dag.func("sqrt", dag.func("l2_norm_squared", dag.atom("vector:error"))), dag.func("sqrt", dag.const(N)))
+            if not dag.equal(first, w1):
+                probs.append("the first figure is %s, expected sqrt(l2_norm_squared(error))/sqrt(%d)" % (dag.show(first, 80), N))
+            if second is not dag.func("infinity_norm", dag.atom("vector:error")):
+                probs.append("the second figure is %s, expected infinity_norm(error)" % dag.show(second, 80))
+        if probs:
+            ck.violation("R-C20-5", "computeExactError:%s" % probs[0].split(" ")[0], ir.locstr(fn), "%s: %s" % (sk, "; ".join(probs[:3])))
+        else:
+            ck.ok("R-C20-5", sk, sample={"shape": sk, "error[0]": dag.show(dag.lift(err.sym[0]), 80)})
 
 
 def statistic_problems(mode, o):
@@ -123,6 +186,7 @@ def main(tier):
                     ck.violation("R-C20-4", "statistic:%s" % sp[0].split(":")[0], ir.locstr(prog.fn("GMGPolar::solve")), "%s: %s" % (pk, "; ".join(sp)[:900]))
                 else:
                     ck.ok("R-C20-4", pk)
+    exact_error_table(ck, tier)
     ck.extra["modes"] = n_modes
     ck.extra["paths"] = n_paths
     try:
